@@ -176,10 +176,12 @@ pub struct TreeCfg {
     pub unary_pct: u32,
     /// weights of the shapes: random splits, left-deep chain, right-deep nest
     pub shape_weights: [u32; 3],
+    /// literal spellings to draw from
+    pub lits: &'static [&'static str],
 }
 impl Default for TreeCfg {
     fn default() -> Self {
-        TreeCfg { max_operands: 8, lit_pct: 45, unary_pct: 20, shape_weights: [6, 2, 1] }
+        TreeCfg { max_operands: 8, lit_pct: 45, unary_pct: 20, shape_weights: [6, 2, 1], lits: &LITERALS }
     }
 }
 
@@ -203,7 +205,7 @@ fn gen_leaf(t: &mut Tape, ti: &TableIdx, nvars: usize, cfg: &TreeCfg) -> Tree {
         if !ti.consts.is_empty() && t.chance(20) {
             Tree::Const(*t.pick(&ti.consts))
         } else {
-            Tree::Num(t.pick(&LITERALS).to_string())
+            Tree::Num(t.pick(cfg.lits).to_string())
         }
     } else {
         Tree::Var(t.choose(nvars))
